@@ -3,7 +3,7 @@ import logging
 import actions
 import column
 import schema
-from objtypes import strict_equal
+from objtypes import equal_encoding, strict_equal
 
 log = logging.getLogger(__name__)
 
@@ -208,10 +208,16 @@ class DocActions(object):
     schema_table_info.columns[col_id] = new
     self._engine.rebuild_usercode()
 
-    # Fill in the new column with the values from the old column.
+    # Fill in the new column with the values from the old column. Values whose conversion to the
+    # new type is visible outside (a different encoding) are converted by the caller, which also
+    # records update and undo actions for them. A conversion like 5.0 -> 5 has no such action, so
+    # it is done here: otherwise replaying this action on its own (redo, ApplyDocActions) would
+    # leave an Int column holding floats, which formulas see as alt text.
     new_column = table.get_column(col_id)
     for row_id in table.row_ids:
-      new_column.set(row_id, old_column.raw_get(row_id))
+      value = old_column.raw_get(row_id)
+      converted = new_column.convert(value)
+      new_column.set(row_id, converted if equal_encoding(value, converted) else value)
 
     # Generate the undo action.
     self._engine.out_actions.undo.append(actions.ModifyColumn(table_id, col_id, undo_col_info))
